@@ -176,10 +176,24 @@ def sown_files_sound(x, sc, D):
         nb = info["num_batches"]
         if nb != sc["B"] and sc["farmer"] != "sampler":
             return False
+        sown = []
         for i in range(1, nb + 1):
             b = cropping.read_from_disk(os.path.join(
                 loc, "batches", cropping.BTCH_NM.format(i)))
             if not len(b):
+                return False
+            sown += list(b)
+        if sc["farmer"] == "sampler":
+            # a sow of random samples that was cut short leaves batch files of
+            # two different draws: the batches must be the samples that the
+            # settings file records
+            args_ = list(info["fn_args"])
+            want = [tuple(models.plain(c[a] if isinstance(c, dict) else v)
+                          for a, v in zip(args_, c if not isinstance(c, dict)
+                                          else args_))
+                    for c in info["cases"]]
+            got = [tuple(models.plain(kw[a]) for a in args_) for kw in sown]
+            if got != want:
                 return False
         if not os.path.isdir(os.path.join(loc, "results")):
             return False
